@@ -247,7 +247,7 @@ for _name, (_mk, _qd) in MODELS.items():
 def complete_case(ctx, idx, rng):
     """Complete manifold + enough Lanczos iterations: the exact sector ground-state energy is reached."""
     name, L, qtot = CASES[idx % len(CASES)]
-    two = bool((idx // len(CASES)) % 2)
+    two = bool((idx // len(CASES)) % 2) or bool((idx // len(CASES)) % 3 == 2)          # every third repetition: two-site from a product basis state
     mk, qd = MODELS[name]
     H = mk(L, gen.generic_params(rng))
     psi = gen.full_sector_mps(rng, qd, L, qtot)
@@ -255,10 +255,41 @@ def complete_case(ctx, idx, rng):
         ctx.case((name, f'L{L}', 'empty-sector'), nontrivial=False)
         return
     psi.orthonormalize('left'); psi.orthonormalize('right')
+    basis_start = bool((idx // len(CASES)) % 3 == 2) and two
+    if basis_start:
+        # the SAME complete manifold, started from a product BASIS state: every tensor is one-hot (all other allowed entries are exactly zero) -- the support of
+        # the current tensor is not its symmetry sector
+        qDf = [np.array(q) for q in psi.qD]
+        for _try in range(50):
+            conf = [int(x) for x in rng.integers(0, len(qd), size=L)]
+            if sum(int(qd[s_]) for s_ in conf) == qtot - int(qDf[0][0]) + 0:
+                break
+        else:
+            basis_start = False
+        if basis_start:
+            lab = int(qDf[0][0])
+            idxs = [0]
+            okp = True
+            for i_, s_ in enumerate(conf):
+                lab += int(qd[s_])
+                w_ = np.where(qDf[i_ + 1] == lab)[0]
+                if len(w_) == 0:
+                    okp = False
+                    break
+                idxs.append(int(w_[int(rng.integers(0, len(w_)))]))
+            if okp:
+                for i_, s_ in enumerate(conf):
+                    psi.A[i_] = np.zeros_like(psi.A[i_])
+                    psi.A[i_][s_, idxs[i_], idxs[i_ + 1]] = 1.0
+            else:
+                basis_start = False
     cls = refs.classify_manifold(qd, L, 0, qtot, psi.qD)
     mH = refs.dense_operator(H.A)
     nH = max(np.linalg.norm(mH, 2), 1.0)
     lam = sector_min(mH, qd, L, qtot)
+    psi_start_A = [np.array(a, copy=True) for a in psi.A]
+    _v0 = refs.dense_state(psi_start_A)
+    E_basis = float(np.real(np.vdot(_v0, mH @ _v0)) / max(np.vdot(_v0, _v0).real, 1e-300))
     integ = 'twosite' if two else 'singlesite'
     # structure classifier (input only): a Hamiltonian whose restriction to the sector is REDUCIBLE in the product basis (the graph of its non-zero matrix
     # elements on the product configurations of the sector is disconnected: conserved quantities beyond the labelled charge). Extreme case: a Hamiltonian
@@ -269,7 +300,7 @@ def complete_case(ctx, idx, rng):
     diagonal = int(connected_components(np.abs(sub) > 0, directed=False)[0]) > 1
     if diagonal:
         cls = cls + ('-diagonal-H' if not np.any(mH - np.diag(np.diag(mH))) else '-reducible-H')
-    ctx.case(('complete', integ, name, f'L{L}', f'class{cls}'), sample={'model': name, 'L': L, 'sector': qtot, 'bond_dims': psi.bond_dims, 'class': cls},
+    ctx.case(('complete', integ, name, f'L{L}', f'class{cls}', 'basis-state-start' if basis_start else 'generic-start'), sample={'model': name, 'L': L, 'sector': qtot, 'bond_dims': psi.bond_dims, 'class': cls},
              info={'model': name, 'L': L, 'sector': qtot, 'qD': psi.qD, 'A': psi.A, 'H_A': H.A, 'H_qD': H.qD, 'algorithm': integ})
     detail = ctx.cur_info
     fn = ptn.calculate_ground_state_local_twosite if two else ptn.calculate_ground_state_local_singlesite
@@ -278,7 +309,7 @@ def complete_case(ctx, idx, rng):
     en_all = []
     sweeps = 0
     reached = False
-    cap = 1 if cls == 'E' else 30
+    cap = 1 if (cls == 'E' and not basis_start) else 30
     if diagonal:
         cap = 30
     while sweeps < cap:
@@ -290,7 +321,32 @@ def complete_case(ctx, idx, rng):
             break
         if len(en_all) >= 3 and abs(en_all[-1] - en_all[-2]) < 1e-13 * nH and abs(en_all[-2] - en_all[-3]) < 1e-13 * nH:
             break       # stalled
-    if diagonal:
+    if basis_start:
+        # sound demand for a one-hot start: if the basis state |s> has a non-zero matrix element <s'|H|s> to a configuration s' that differs from s on ONE pair of
+        # neighbouring sites (or one site), the two-site local problem of that pair is not solved by the current one-hot tensor, so the FIRST sweep must lower
+        # the energy strictly (numiter >= local dimension). Reaching the ground state from such a start is recorded, not demanded (the tangent space at a
+        # one-hot point is small; 11 of 5760 runs of the unchanged code need more than one sweep).
+        v_s = refs.dense_state(psi_start_A)
+        k_s = int(np.argmax(np.abs(v_s)))
+        dloc = len(qd)
+        digits = [(k_s // dloc ** (L - 1 - i_)) % dloc for i_ in range(L)]
+        movable = False
+        col = mH[:, k_s]
+        for k2 in np.nonzero(np.abs(col) > 1e-12 * nH)[0]:
+            if k2 == k_s:
+                continue
+            d2 = [(int(k2) // dloc ** (L - 1 - i_)) % dloc for i_ in range(L)]
+            diff = [i_ for i_ in range(L) if d2[i_] != digits[i_]]
+            if len(diff) == 1 or (len(diff) == 2 and diff[1] == diff[0] + 1):
+                movable = True
+                break
+        if movable:
+            ctx.ok('complete.basis-start-first-sweep-lowers-energy', en_all[0] < E_basis - 1e-10 * nH,
+                   f'two-site DMRG started from a product basis state with a neighbouring-pair matrix element did not lower the energy in its first sweep ({E_basis} -> {en_all[0]})', detail)
+        else:
+            ctx.skip('complete.basis-start-first-sweep-lowers-energy')
+        ctx.count('complete.basis-start-reaches-ground-state' if reached else 'complete.basis-start-does-not-reach-ground-state')
+    elif diagonal:
         if reached:
             ctx.count('complete.reducible-H-reaches-ground-state')
         else:
@@ -327,7 +383,7 @@ SPEC = {
         Workload('runs', dmrg_case, quick=780, thorough=64000),
         Workload('symmetric-sectors', symmetric_sector_case, quick=160, thorough=8000),
         Workload('large', large_case, quick=60, thorough=4000),
-        Workload('complete', complete_case, quick=len(CASES), thorough=len(CASES) * 30),
+        Workload('complete', complete_case, quick=len(CASES) * 3, thorough=len(CASES) * 30),
     ],
     'shards': {'quick': 4, 'thorough': 16},
     'watchdog_s': {'quick': 900, 'thorough': 7200},
